@@ -46,11 +46,35 @@ def pack2 : Option (Int × Int) → Option Int
   | some (r, s) => some (r * 65536 + s)
   | none => none
 
-def digestRange (lo n : Nat) (f : Int → Option Int) : UInt64 := Id.run do
-  let mut h : Fnv := {}
+/-- FNV-1a over the 8 little-endian bytes of a word, unrolled on unboxed `UInt64`
+(same function as `Driver.Fnv.word`; the sweep over 1.8·10^9 cases spends its time here) -/
+@[inline] def fnvByte (h b : UInt64) : UInt64 := (h ^^^ b) * 0x100000001b3
+@[inline] def fnvWord (h w : UInt64) : UInt64 :=
+  let h := fnvByte h (w &&& 0xff)
+  let h := fnvByte h ((w >>> 8) &&& 0xff)
+  let h := fnvByte h ((w >>> 16) &&& 0xff)
+  let h := fnvByte h ((w >>> 24) &&& 0xff)
+  let h := fnvByte h ((w >>> 32) &&& 0xff)
+  let h := fnvByte h ((w >>> 40) &&& 0xff)
+  let h := fnvByte h ((w >>> 48) &&& 0xff)
+  fnvByte h (w >>> 56)
+
+/-- `Driver.optWord` with a fast path for small non-negative values (the general path reduces
+modulo the bignum 2^64) -/
+@[inline] def optWordFast : Option Int → UInt64
+  | none => 0xFFFFFFFFFFFFFFFF
+  | some v => if 0 ≤ v ∧ v < 4611686018427387904 then v.toNat.toUInt64 else optWord (some v)
+
+/-- model digest and spec digest of one block in a single pass -/
+def digestRange2 (lo n : Nat) (model : Int → Option Int) (spec : Int → Option Int → Option Int) : UInt64 × UInt64 := Id.run do
+  let mut hm : UInt64 := 0xcbf29ce484222325
+  let mut hs : UInt64 := 0xcbf29ce484222325
   for i in [0:n] do
-    h := h.word (optWord (f (((lo + i) % 4294967296 : Nat) : Int)))
-  return h.h
+    let f : Int := (((lo + i) % 4294967296 : Nat) : Int)
+    let m := model f
+    hm := fnvWord hm (optWordFast m)
+    hs := fnvWord hs (optWordFast (spec f m))
+  return (hm, hs)
 
 def marker : Option Int := some 0x5BADBADBAD
 
@@ -71,15 +95,13 @@ def handle (ws : List String) : String :=
   | ["pll126_digest", lo, n] =>
     match lo.toNat?, n.toNat? with
     | some lo, some n =>
-      let m := digestRange lo n sx126xSetChannel
-      let s := digestRange lo n (fun f => if inRange f then some (Spec.Semtech.sx126xPll f) else sx126xSetChannel f)
+      let (m, s) := digestRange2 lo n sx126xSetChannel (fun f mv => if inRange f then some (Spec.Semtech.sx126xPll f) else mv)
       s!"{hex64 m}|{hex64 s}"
     | _, _ => "bad-op"
   | ["pll127_digest", lo, n] =>
     match lo.toNat?, n.toNat? with
     | some lo, some n =>
-      let m := digestRange lo n sx127xSetChannel
-      let s := digestRange lo n (fun f => if inRange f then some (Spec.Semtech.sx127xPll f) else sx127xSetChannel f)
+      let (m, s) := digestRange2 lo n sx127xSetChannel (fun f mv => if inRange f then some (Spec.Semtech.sx127xPll f) else mv)
       s!"{hex64 m}|{hex64 s}"
     | _, _ => "bad-op"
   | ["pa126", variant, req, rf, obs] =>
